@@ -469,7 +469,7 @@ func c38Run(rt *rapid.T, rec *ev.Rec) {
 		// ---- expectations
 		bodyless := q.method == "HEAD" || c38Bodyless(m.status)
 		var wantBody []byte
-		// A Write may be refused only for a status without body or once the handler's own
+		// A Write may be refused only for HEAD / a status without body or once the handler's own
 		// declared Content-Length is exceeded; every other Write must be accepted in full
 		// (the body is then the concatenation of what was accepted).
 		declCL := int64(-1)
@@ -487,7 +487,8 @@ func c38Run(rt *rapid.T, rec *ev.Rec) {
 			}
 			l := len(q.ops[oi].Data)
 			cum += int64(l)
-			mayRefuse := c38Bodyless(m.status) || (declCL >= 0 && cum > declCL)
+			// (HEAD: the body is discarded; bfe reports "short write" after the first flush)
+			mayRefuse := bodyless || (declCL >= 0 && cum > declCL)
 			if !mayRefuse && (res[oi].N != l || res[oi].Err != "") && !refused {
 				refused = true
 				fail("write-refused", "Write of %d octets (total %d so far, handler declared content-length %d, status %d) returned n=%d err=%q", l, cum, declCL, m.status, res[oi].N, res[oi].Err)
